@@ -89,7 +89,7 @@ type registration struct {
 
 // C18 — activation functions.
 func C18(p *Prog, r *Run) {
-	r.Explanation = "Decided: (1) registry: every NodeActivationType constant is registered exactly once, scalar types with Register, module types with RegisterModule, names pairwise distinct, Register/RegisterModule fill the function map and both name maps consistently, and the miss path of all four lookups returns a non-nil error; (2) for the closure registered under each scalar constant, by abstract interpretation (interval x monotonicity x may-NaN, input domain [-1e300,1e300] split at the constants the closure tests): the result lies in the documented range, is finite and never NaN, and is monotonically non-decreasing for the sigmoid family, tanh, linear, clipped-linear and step, including left/right values at every breakpoint; a construct outside the transfer-function table makes the obligation undecided (fails); (3) module folds: multiply starts from 1 and multiplies every input, max/min fold every input with math.Max/Min starting from an identity of the whole domain (±Inf, ±MaxFloat64 or the first element). (4) closed form: every piece of every scalar closure has the algebraic normal form of its documented definition; (5) network.ActivateNode and ActivateModule touch the node(s) with the looked-up value only under err == nil of that lookup and hand the error on. The interpreter follows if/else chains, tagless switches, early returns and (re-)assigned locals of the closure flow-sensitively; a closure produced by a one-line factory with constant arguments is interpreted with the captured constants."
+	r.Explanation = "Decided: (1) registry: every NodeActivationType constant is registered exactly once, scalar types with Register, module types with RegisterModule, names pairwise distinct, Register/RegisterModule fill the function map and both name maps consistently, and the miss path of all four lookups returns a non-nil error; (2) for the closure registered under each scalar constant, by abstract interpretation (interval x monotonicity x may-NaN, input domain [-1e300,1e300] split at the constants the closure tests): the result lies in the documented range, is finite and never NaN, and is monotonically non-decreasing for the sigmoid family, tanh, linear, clipped-linear and step, including left/right values at every breakpoint; a construct outside the transfer-function table makes the obligation undecided (fails); (3) module folds: multiply starts from 1 and multiplies every input, max/min fold every input with math.Max/Min starting from an identity of the whole domain (±Inf, ±MaxFloat64 or the first element). (4) closed form: every piece of every scalar closure has the algebraic normal form of its documented definition; (5) network.ActivateNode and ActivateModule touch the node(s) with the looked-up value only under err == nil of that lookup and hand the error on. The interpreter follows if/else chains, tagless switches, early returns and (re-)assigned locals of the closure flow-sensitively; a closure produced by a one-line factory with constant arguments is interpreted with the captured constants. A registered activation may be a function literal or a declared top-level function; calls of pure straight-line float helpers of the package are unfolded, the `L: for { ...; break L }` blocks of helpers inlined by the normalisation are followed, idioms (square, soft-sign) are recognised by value through locals (equal normal forms), and input pieces carry open/closed bounds so that a branch excluded by an earlier comparison contributes no piece. The lookups' error result is judged per way it is produced (direct returns and values merged into a single return)."
 	factory := p.Func(PkgM, "NewNodeActivatorsFactory")
 	regF := p.Func(PkgM, "NodeActivatorsFactory.Register")
 	regM := p.Func(PkgM, "NodeActivatorsFactory.RegisterModule")
@@ -170,20 +170,23 @@ func C18(p *Prog, r *Run) {
 			r.Fn(FuncName(fn))
 			tm := NewTermer(fn)
 			miss, hit := 0, 0
-			for _, b := range fn.Blocks {
-				ret, ok := b.Instrs[len(b.Instrs)-1].(*ssa.Return)
-				if !ok {
-					continue
-				}
+			// every way the error result is produced (robust_c18.go c18ResultLeaves): a value returned directly, or
+			// a value merged into the returned one (`var err error; if !ok { err = ... }; return v, err`), with the
+			// branch outcomes known where it is chosen
+			errIdx := fn.Signature.Results().Len() - 1
+			for _, lf := range c18ResultLeaves(fn, errIdx) {
+				ret := lf.Ret
 				found := false
 				isMiss := false
-				for _, g := range Guards(b) {
+				for _, g := range lf.Guards {
 					if gt := tm.Of(g.Cond); gt.Op == "call" && gt.Name == "has" {
 						found = true
-						isMiss = !g.True
+						if !g.True {
+							isMiss = true
+						}
 					}
 				}
-				et := tm.Of(ret.Results[len(ret.Results)-1])
+				et := tm.Of(lf.Val)
 				if found && isMiss {
 					miss++
 					r.Check(et.Op != "nil", name+".miss", p.Pos(ret.Pos()), "an unknown key yields an error", name+" returns a nil error for an unknown type/name")
@@ -201,7 +204,6 @@ func C18(p *Prog, r *Run) {
 	})
 
 	r.Rule("C18.2", "range, finiteness and monotonicity of every scalar activation on [-1e300,1e300] by abstract interpretation of the registered closure", func() {
-		pk := p.ByPath[PkgM]
 		n := 0
 		for _, g := range regs {
 			if g.module || g.constName == "" || g.fn == nil {
@@ -212,15 +214,15 @@ func C18(p *Prog, r *Run) {
 				r.Undecided("range:"+g.constName, g.pos, "no documented range for this activation type in the checker's table")
 				continue
 			}
-			lit, ok := g.fn.Syntax().(*ast.FuncLit)
-			if !ok {
-				r.Undecided("range:"+g.constName, g.pos, "the registered function is not a function literal")
+			info, decls, ftype, body, at, whyS := scalarSyntax(p, g.fn)
+			if whyS != "" {
+				r.Undecided("range:"+g.constName, g.pos, whyS)
 				continue
 			}
 			n++
 			r.Fn(g.constName + "=" + g.fn.Name())
-			pos := p.Pos(lit.Pos())
-			res, ai, bad := analyseScalar(pk.TypesInfo, lit, g.bind)
+			pos := p.Pos(at)
+			res, ai, bad := analyseScalar(info, decls, ftype, body, g.bind)
 			if bad != "" {
 				r.Undecided("range:"+g.constName, pos, "the abstract interpreter cannot decide this closure: "+bad)
 				continue
@@ -254,8 +256,8 @@ func C18(p *Prog, r *Run) {
 					if y.piece.lo != c {
 						continue
 					}
-					l := ai.eval(x.expr, apiece{c, c}, x.env)
-					rr := ai.eval(y.expr, apiece{c, c}, y.env)
+					l := ai.eval(x.expr, apiece{lo: c, hi: c}, x.env)
+					rr := ai.eval(y.expr, apiece{lo: c, hi: c}, y.env)
 					if l.bad == "" && rr.bad == "" && (math.Abs(l.lo-rr.lo) > 1e-9 || math.Abs(l.hi-rr.hi) > 1e-9) {
 						okC, whyC = false, fmt.Sprintf("at the breakpoint %g the left piece gives %g and the right piece %g", c, l.lo, rr.lo)
 					}
@@ -277,8 +279,8 @@ func C18(p *Prog, r *Run) {
 							}
 							continue
 						}
-						l := ai.eval(x.expr, apiece{c, c}, x.env)
-						rr := ai.eval(y.expr, apiece{y.piece.lo, y.piece.lo}, y.env)
+						l := ai.eval(x.expr, apiece{lo: c, hi: c}, x.env)
+						rr := ai.eval(y.expr, apiece{lo: y.piece.lo, hi: y.piece.lo}, y.env)
 						if l.bad != "" || rr.bad != "" || l.hi > rr.lo+1e-12 {
 							okM, whyM = false, fmt.Sprintf("at the breakpoint %g the function drops from %g (left piece) to %g (right piece)", c, l.hi, rr.lo)
 						}
@@ -291,7 +293,6 @@ func C18(p *Prog, r *Run) {
 	})
 
 	r.Rule("C18.4", "closed form: on every piece of its input domain each scalar activation has the algebraic normal form (quotient of polynomials over x and exp/tanh/sin/abs applications) of its documented definition", func() {
-		pk := p.ByPath[PkgM]
 		n := 0
 		for _, g := range regs {
 			if g.module || g.constName == "" || g.fn == nil {
@@ -302,13 +303,13 @@ func C18(p *Prog, r *Run) {
 				r.Undecided("definition:"+g.constName, g.pos, "no documented closed form for this activation type in the checker's table")
 				continue
 			}
-			lit, ok := g.fn.Syntax().(*ast.FuncLit)
-			if !ok {
-				r.Undecided("definition:"+g.constName, g.pos, "the registered function is not a function literal")
+			info, decls, ftype, body, at, whyS := scalarSyntax(p, g.fn)
+			if whyS != "" {
+				r.Undecided("definition:"+g.constName, g.pos, whyS)
 				continue
 			}
-			pos := p.Pos(lit.Pos())
-			res, ai, bad := analyseScalar(pk.TypesInfo, lit, g.bind)
+			pos := p.Pos(at)
+			res, ai, bad := analyseScalar(info, decls, ftype, body, g.bind)
 			if bad != "" {
 				r.Undecided("definition:"+g.constName, pos, "the closure's pieces cannot be enumerated: "+bad)
 				continue
@@ -332,7 +333,7 @@ func C18(p *Prog, r *Run) {
 				case x.piece.hi >= 1e299:
 					rep = x.piece.lo + 1
 				}
-				got, err := (&nfBuilder{info: pk.TypesInfo, input: ai.input, env: x.env}).build(x.expr)
+				got, err := (&nfBuilder{info: info, input: ai.input, env: x.env, decls: decls}).build(x.expr)
 				if err != nil {
 					okD, why = false, fmt.Sprintf("the result %s on [%g,%g] has no normal form: %v", exprStr(x.expr), x.piece.lo, x.piece.hi, err)
 					break
